@@ -61,13 +61,13 @@ Inductive xi : scode -> xst -> outcome -> Prop :=
 | xi_addact r x : xi (SAddAct r) x (OFall (setm x (add o r (pos (xm x)) (xm x))))
 | xi_logact k x : xi (SLogAct k) x (OFall (setm x (log_action k (xm x))))
 | xi_dot l x :
-    xi (SCond CDot l) x (match mterm buf (fun c => negb (Z.eqb c endSymbol)) (xm x) with
+    xi (SCond QDot l) x (match mterm buf (fun c => negb (Z.eqb c endSymbol)) (xm x) with
                          | Crash => OCrash | Ret true m' => OFall (setm x m') | Ret false m' => OGoto l (setm x m') end)
-| xi_char c l x : xi (SCond (CChar c) l) x (rdtest (Z.eqb c) l x)
-| xi_range lo hi l x : xi (SCond (CRange lo hi) l) x (rdtest (in_range lo hi) l x)
+| xi_char c l x : xi (SCond (QChar c) l) x (rdtest (Z.eqb c) l x)
+| xi_range lo hi l x : xi (SCond (QRange lo hi) l) x (rdtest (in_range lo hi) l x)
 | xi_call r l x res : xcall r (xm x) res ->
-    xi (SCond (CCall r) l) x (match res with Crash => OCrash | Ret true m' => OFall (setm x m') | Ret false m' => OGoto l (setm x m') end)
-| xi_predtest l x : xi (SCond CPredTest l) x (if xpf x then OFall x else OGoto l x)
+    xi (SCond (QCall r) l) x (match res with Crash => OCrash | Ret true m' => OFall (setm x m') | Ret false m' => OGoto l (setm x m') end)
+| xi_predtest l x : xi (SCond QPred l) x (if xpf x then OFall x else OGoto l x)
 | xi_lbl n x : xi (SLbl n) x (OFall x)
 | xi_jmp n x : xi (SJmp n) x (OGoto n x)
 | xi_save n x : xi (SSave n) x (OFall (setenv x n (pos (xm x), tix (xm x))))
